@@ -237,7 +237,7 @@ def aligned_model(grid):
     return M.mesh_from_arrays(lon, lat, conn)
 
 
-DEFAULT_DIALECT = {"lon360": False, "fill": None, "start": 0, "dtype": "intp", "extra": [], "xyz_scale": 1.0}
+DEFAULT_DIALECT = {"lon360": False, "fill": None, "start": 0, "dtype": "intp", "extra": [], "xyz_scale": 1.0, "centre_shift": 0.0}
 
 
 def _lon_out(lon, lon360):
@@ -272,8 +272,13 @@ def topology_kwargs(mesh, dialect):
     if "node_xyz" in extra:
         p = mesh.xyz() * sc
         kw["node_x"], kw["node_y"], kw["node_z"] = p[:, 0].copy(), p[:, 1].copy(), p[:, 2].copy()
+    shift = float(d.get("centre_shift", 0.0))
     if "face_lonlat" in extra or "face_xyz" in extra:
         c = mesh.face_centres()
+        if shift:
+            # a source's own idea of a cell centre need not be the corner mean
+            first = mesh.xyz()[[f[0] for f in mesh.faces]]
+            c = M.normalize((1.0 - shift) * c + shift * first)
         if "face_lonlat" in extra:
             lo, la = M.lonlat_of(c)
             kw["face_lon"], kw["face_lat"] = _lon_out(lo, d["lon360"]), la
@@ -286,6 +291,9 @@ def topology_kwargs(mesh, dialect):
         en = np.array(pairs, dtype=dtype) + d["start"]
         kw["edge_node_connectivity"] = en
         c = mesh.edge_centres(pairs)
+        if shift:
+            first = mesh.xyz()[[a for a, b in pairs]]
+            c = M.normalize((1.0 - shift) * c + shift * first)
         if "edge_lonlat" in extra:
             lo, la = M.lonlat_of(c)
             kw["edge_lon"], kw["edge_lat"] = _lon_out(lo, d["lon360"]), la
@@ -371,6 +379,11 @@ def open_source(spec, scratch=None):
             ds = ugrid_dataset(mesh, dialect)
             inputs = {"dataset": ds}
             g = ux.Grid.from_dataset(ds)
+        elif prov == "ugrid_mem_chunked":
+            # the caller's dataset is dask-backed before the grid is built
+            ds = ugrid_dataset(mesh, dialect).chunk()
+            inputs = {"dataset": ds}
+            g = ux.Grid.from_dataset(ds)
         elif prov == "ugrid_file":
             ds = ugrid_dataset(mesh, dialect)
             assert scratch, "ugrid_file provenance needs a scratch dir"
@@ -380,7 +393,7 @@ def open_source(spec, scratch=None):
             if not os.path.exists(path):
                 ds.to_netcdf(path)
             inputs = {"path": path}
-            g = ux.open_grid(path)
+            g = ux.open_grid(path, chunks={}) if dialect.get("chunks") else ux.open_grid(path)
         else:
             raise ValueError(f"unknown provenance {prov}")
         return Source(spec, g, aligned_model(g), inputs, mesh)
